@@ -517,6 +517,8 @@ func (n *btreeNode) split(newPg *btreeNode) (uint32, error) {
 			if err := newPg.appendLeafCell(cell.key, cell.valueBytes); err != nil {
 				return 0, err
 			}
+			// a deleted row stays deleted on its new page
+			newPg.leafCells[len(newPg.leafCells)-1].deleted = cell.deleted
 		}
 
 		n.offsets = n.offsets[0:mid]
